@@ -218,6 +218,7 @@ func main() {
 		{"OneConnection", "ParseTxNet", "ParseTxNet", ""},
 		{"OneConnection", "ProcessGetMP", "ProcessGetMP", ""},
 		{"OneConnection", "HandlePong", "HandlePong", ""},
+		{"OneConnection", "GetMPDone", "GetMPDone", ""},
 		{"OneConnection", "FetchMessage", "FetchMessage", ""},
 	}
 	noInline := map[string]bool{}
@@ -331,13 +332,43 @@ func main() {
 	// ---- lock traces of every function of the package (locks.go)
 	var traces []*lockWalker
 	// every file of the package (a function moved to another file stays traced), except the verification hooks
+	// first pass: the counter helpers (locks.go) - methods that touch their receiver's counters map and do not
+	// lock the receiver's Mutex themselves; recognised by that shape, so a renamed or added helper is found too
+	var helperKeys []string
+	for _, sf := range ix.order {
+		if sf.file == "verif_export.go" || lockTraceSkip[sf.key] != "" || sf.recv == "" {
+			continue
+		}
+		w := lockTraceOf(sf, ix.imports)
+		if !w.touchesCounters() {
+			continue
+		}
+		locksOwn := false
+		for _, l := range w.ownLocks() {
+			locksOwn = locksOwn || l == "c.Mutex"
+		}
+		if !locksOwn {
+			counterHelpers[sf.name] = true
+			helperKeys = append(helperKeys, sf.key)
+		}
+	}
+	sort.Strings(helperKeys)
 	for _, sf := range ix.order {
 		if sf.file == "verif_export.go" || lockTraceSkip[sf.key] != "" {
 			continue
 		}
+		if sf.recv != "" && counterHelpers[sf.name] {
+			if ms := ix.methods[sf.name]; len(ms) != 1 {
+				die(fmt.Errorf("lock traces: counter helper %s shares its name with %d methods (call sites are matched by name)", sf.key, len(ms)))
+			}
+			continue // checked at its call sites
+		}
 		traces = append(traces, lockTraceOf(sf, ix.imports))
 	}
 	resolveCalls(traces, ix.imports, ix.globals)
+	writeList(&sb, "counterHelpers", "", helperKeys, true)
+	sb.WriteString("-- ^ methods that touch <receiver>.counters without locking <receiver>.Mutex themselves: not traced, every call is a shared access (token 9) of the caller's trace\n\n")
+	nfacts += len(helperKeys)
 	if len(traces) < 60 {
 		die(fmt.Errorf("lock traces: only %d functions found", len(traces)))
 	}
